@@ -20,6 +20,7 @@ TARGETS = {
 PROPS = {
     "C17": dict(
         targets=["c17_adapters", "c17_compose", "c17_roworder_amg", "c17_roworder_cpr"],
+        shard_mult={"thorough": 6},
         level="exploration",
         rule="tape-decoded matrices: random sparse (square/rectangular, empty rows, explicit zeros, sorted or shuffled rows), SPD M-matrices and general-valued matrices on the graph families "
              "path/grid2/grid2x9/grid3/er/tree/band/star/union/diag (optionally structurally non-symmetric, rows optionally shuffled). Adapters: tuples of std::vector / amgcl::iterator_range over raw "
